@@ -22,6 +22,7 @@ use std::fmt::Write as _;
 use std::panic::{catch_unwind, AssertUnwindSafe};
 
 pub fn gen_mat4(r: &mut Rng) -> Matrix4<f32> {
+    if r.chance(0.15) { let mut m = Matrix4::identity(); if r.chance(0.5) { m = Matrix4::from_euler_angles(r.unit() as f32 * 3.0, r.unit() as f32 * 3.0, r.unit() as f32 * 3.0); } m[(3, 3)] = *r.pick(&[2.0f32, 0.5, 1.6, 3.0]); return m; }
     match r.below(4) {
         0 => Matrix4::identity(),
         1 => Matrix4::new_scaling(*r.pick(&[0.5f32, 2.0, 1.5, 0.75])),
